@@ -601,6 +601,7 @@ func (ref *Node) newContainerHandler() (reflectContainer, error) {
 	k := src.Kind()
 	if k == reflect.Map {
 		return &mapAsContainer{
+			ref: ref,
 			src: src,
 		}, nil
 	}
